@@ -11,6 +11,10 @@
   * `empty_background` — without matched pairs every site weighs `initial`;
   * `off_site_zero` — only sites (row and column of equal parity in grid coordinates) carry weight, whatever the
     background: plaquette positions and the grid border positions of odd parity are 0;
+  * `count_tight_inside`, `count_tight_outside` — the default box shape: for one matched pair a grid cell inside the
+    bounding box of the pair is left alone and every other grid cell is multiplied exactly once, i.e. with the tight
+    box a site weighs `initial · factor ^ (number of matched pairs whose box does not contain it)`
+    (`tight_total_count`, any list of active pairs on the grid);
   * `distance_both_virtual_zero` — two virtual indices are at distance 0 for every algorithm and background;
   * `distance_algorithm_2_symmetric` — algorithm 2 (down-across / across-down minimum) does not depend on the orientation
     of the pair;  algorithm 1 DOES (`distance_algorithm_1_not_symmetric`: a concrete background, kernel-evaluated; the
@@ -90,6 +94,69 @@ theorem distance_algorithm_2_symmetric (R C : Int) (g : Int → Int → Rat) (sr
   · rfl
   · simp only [show (2 : Nat) ≠ 1 by decide, if_false, if_true, corners_comm (gi src) (gi tgt)]
     rw [rat_min_comm, Rat.add_comm (sumRange (fun c => g (gi src).1 c) _ _), Rat.add_comm (sumRange (fun r => g r (gi src).2) _ _)]
+
+/-! ## the tight box -/
+
+/-- **tight box, inside**: a cell of the grid inside the bounding box of a matched pair is not multiplied -/
+theorem count_tight_inside (R C : Int) (src tgt : Idx) (r c : Int)
+    (hr : min (src.1 + 1) (tgt.1 + 1) ≤ r ∧ r ≤ max (src.1 + 1) (tgt.1 + 1))
+    (hc : min (src.2 + 1) (tgt.2 + 1) ≤ c ∧ c ≤ max (src.2 + 1) (tgt.2 + 1))
+    (hgr : 0 ≤ r ∧ r < (dim R C).nr) (hgc : 0 ≤ c ∧ c < (dim R C).nc) :
+    count (dim R C) .t src tgt r c = 0 := by
+  have e : count (dim R C) .t src tgt r c =
+      inComplement (dim R C) (min (src.1 + 1) (tgt.1 + 1), min (src.2 + 1) (tgt.2 + 1))
+        (max (src.1 + 1) (tgt.1 + 1), max (src.2 + 1) (tgt.2 + 1)) r c := rfl
+  rw [e]; unfold inComplement; dsimp only
+  repeat' split
+  all_goals omega
+
+/-- **tight box, outside**: every other cell of the grid is multiplied exactly once -/
+theorem count_tight_outside (R C : Int) (src tgt : Idx) (r c : Int)
+    (hout : ¬ ((min (src.1 + 1) (tgt.1 + 1) ≤ r ∧ r ≤ max (src.1 + 1) (tgt.1 + 1)) ∧
+               (min (src.2 + 1) (tgt.2 + 1) ≤ c ∧ c ≤ max (src.2 + 1) (tgt.2 + 1))))
+    (hgr : 0 ≤ r ∧ r < (dim R C).nr) (hgc : 0 ≤ c ∧ c < (dim R C).nc)
+    (hs : 0 ≤ src.1 + 1 ∧ src.1 + 1 < (dim R C).nr ∧ 0 ≤ src.2 + 1 ∧ src.2 + 1 < (dim R C).nc)
+    (ht : 0 ≤ tgt.1 + 1 ∧ tgt.1 + 1 < (dim R C).nr ∧ 0 ≤ tgt.2 + 1 ∧ tgt.2 + 1 < (dim R C).nc) :
+    count (dim R C) .t src tgt r c = 1 := by
+  have e : count (dim R C) .t src tgt r c =
+      inComplement (dim R C) (min (src.1 + 1) (tgt.1 + 1), min (src.2 + 1) (tgt.2 + 1))
+        (max (src.1 + 1) (tgt.1 + 1), max (src.2 + 1) (tgt.2 + 1)) r c := rfl
+  rw [e]; unfold inComplement; dsimp only
+  repeat' split
+  all_goals omega
+
+/-- the cell lies in the bounding box (grid coordinates) of the matched pair -/
+def insideBox (p : Idx × Idx) (r c : Int) : Prop :=
+  (min (p.1.1 + 1) (p.2.1 + 1) ≤ r ∧ r ≤ max (p.1.1 + 1) (p.2.1 + 1)) ∧
+  (min (p.1.2 + 1) (p.2.2 + 1) ≤ c ∧ c ≤ max (p.1.2 + 1) (p.2.2 + 1))
+
+instance (p : Idx × Idx) (r c : Int) : Decidable (insideBox p r c) := by unfold insideBox; infer_instance
+
+/-- an index whose grid position lies on the grid (every real or virtual plaquette index does) -/
+def onGrid (R C : Int) (i : Idx) : Prop :=
+  0 ≤ i.1 + 1 ∧ i.1 + 1 < (dim R C).nr ∧ 0 ≤ i.2 + 1 ∧ i.2 + 1 < (dim R C).nc
+
+/-- **the tight background in closed form**: with active matched pairs on the grid, a grid cell has been multiplied
+    once for every pair whose bounding box does NOT contain it — so a site weighs
+    `initial · factor ^ #{pairs whose box misses the site}` -/
+theorem tight_total_count (R C : Int) (ps : List (Idx × Idx)) (r c : Int)
+    (hact : ∀ p ∈ ps, active R C p = true) (hon : ∀ p ∈ ps, onGrid R C p.1 ∧ onGrid R C p.2)
+    (hgr : 0 ≤ r ∧ r < (dim R C).nr) (hgc : 0 ≤ c ∧ c < (dim R C).nc) :
+    totalCount R C .t ps r c = (ps.filter fun p => !decide (insideBox p r c)).length := by
+  induction ps with
+  | nil => simp [totalCount]
+  | cons p ps ih =>
+    have ih' := ih (fun q hq => hact q (List.mem_cons_of_mem _ hq)) (fun q hq => hon q (List.mem_cons_of_mem _ hq))
+    have ha := hact p List.mem_cons_self
+    have ho := hon p List.mem_cons_self
+    have hsplit : totalCount R C .t (p :: ps) r c = count (dim R C) .t p.1 p.2 r c + totalCount R C .t ps r c := by
+      unfold totalCount; simp [ha]
+    rw [hsplit, ih']
+    by_cases hi : insideBox p r c
+    · rw [count_tight_inside R C p.1 p.2 r c hi.1 hi.2 hgr hgc]
+      simp [List.filter_cons, hi]
+    · rw [count_tight_outside R C p.1 p.2 r c hi hgr hgc ho.1 ho.2]
+      simp [List.filter_cons, hi]; omega
 
 /-- algorithm 1 depends on the orientation (3x3 lattice, one matched pair, factor 3) -/
 theorem distance_algorithm_1_not_symmetric :
